@@ -161,6 +161,21 @@ MUTANTS = [
      "                except KeyError:\n                    # direct partial trace\n                    b_input.append(j)",
      "                except KeyError:\n                    # direct partial trace\n                    b_input.append(-j)", "expect-fail"),
     (D2, "D2BP.compute_marginal::", "                # output index -> take diagonal\n", "                # output index: diagonal\n", "benign"),
+    # ------------------------------------------------------------------ E1: BeliefPropagationCommon.run
+    (COMMON, "::BeliefPropagationCommon.run", "        while not self.converged and it < max_iterations:",
+     "        while not self.converged and it <= max_iterations:", "expect-fail"),
+    (COMMON, "::BeliefPropagationCommon.run", "            self.converged |= max_mdiff < tol_abs", "            self.converged |= max_mdiff < tol",
+     "expect-fail"),
+    (COMMON, "::BeliefPropagationCommon.run", "            result = self.iterate(tol=tol)", "            result = self.iterate()", "expect-fail"),
+    (COMMON, "::BeliefPropagationCommon.run", "                self.converged |= amd < tol_rolling_diff",
+     "                self.converged = amd < tol_rolling_diff", "expect-fail"),
+    (COMMON, "::BeliefPropagationCommon.run", "            it += 1\n            self.n += 1", "            it += 1\n            self.n += 2", "expect-fail"),
+    (COMMON, "::BeliefPropagationCommon.run", '            info["iterations"] = it', '            info["iterations"] = it - 1', "expect-fail"),
+    (COMMON, "::BeliefPropagationCommon.run", "        if tol != 0.0 and not self.converged:", "        if not self.converged:", "expect-fail"),
+    (COMMON, "::BeliefPropagationCommon.run", "        self.converged = False\n        while not self.converged",
+     "        while not self.converged", "expect-fail"),
+    (COMMON, "::BeliefPropagationCommon.run", "            self.mdiffs.append(max_mdiff)", "            self.mdiffs.append(tol)", "expect-fail"),
+    (COMMON, "::BeliefPropagationCommon.run", "        it = 0\n        rdm = RollingDiffMean()", "        rdm = RollingDiffMean()\n        it = 0", "benign"),
 ]
 
 
@@ -169,6 +184,9 @@ def run_mutant(tmp, relpath, suffix, old, new):
     id contains `suffix` is discharged on the mutated tree"""
     import contracts.c14_ext as C
 
+    if suffix.startswith("::"):  # an E1 contract: the engine re-verifies the mutated source
+        from vf.selftest import run_e1_mutant
+        return run_e1_mutant(tmp, relpath, suffix, old, new)
     root = os.environ.get("VERIF_REPO", "/repo")
     src = open(os.path.join(root, relpath)).read()
     if src.count(old) < 1:
